@@ -49,6 +49,7 @@ theorem exitThrough_good {s : Vm} {q : Bool} (e : ExitKind) (r : Res)
   | fatal => exact h
   | stuck => exact h
   | exit e2 => exact h
+  | yielded => exact h
 
 /-- the `finally` block with the (consumed) frame on top, then leaveFinally -/
 theorem finPhase_good {runF : RunF} (HG : HypG runF) (fin : Beh) (s sX : Vm) (tf : TryFrame) (hI : Inv s)
@@ -81,6 +82,20 @@ theorem finPhase_good {runF : RunF} (HG : HypG runF) (fin : Beh) (s sX : Vm) (tf
     have hts : s1.tryStack = tf :: s.tryStack := hc.ts.trans hA.ts
     simp only [hts]
     exact ⟨by simpa [GoodCtl] using same_of_atFrame_pop hA hc, fun _ => hq (by simp)⟩
+  | yielded =>
+    simp only [GoodCtl] at hc
+    obtain ⟨e, he, _⟩ := hc.1.ts
+    have hne : ∃ tf' rest', s1.tryStack = tf' :: rest' := by
+      rw [he, hA.ts]
+      cases e with
+      | nil => exact ⟨_, _, rfl⟩
+      | cons x xs => exact ⟨_, _, rfl⟩
+    obtain ⟨tf', rest', hts⟩ := hne
+    simp only [hts]
+    have hext := ext_through_frame hA hjs (by simp) hc.1
+    have hts' := hext.ts
+    rw [hts] at hts'
+    exact ⟨by simp only [GoodCtl]; exact ⟨⟨hext.cs, hext.is, hext.rs, hts'⟩, hc.2.trans hA.cs⟩, fun _ => hq (by simp)⟩
 
 /-- end of the protected region / of the handler -/
 theorem leaveTry_good {runF : RunF} (HG : HypG runF) (fin : Beh) (s sX : Vm) (tf : TryFrame) (hI : Inv s)
@@ -188,6 +203,10 @@ theorem afterHandler_good {runF : RunF} (HG : HypG runF) (HA : HypA runF) (hasFi
     have := leaveTry_good HG fin s s1 tf hI hA1 hF.sp hF.stash (by simp [hcp, tryPanicMarker])
     have := exitThrough_good (q := s1.interrupted) e _ this
     exact ⟨this.1, fun hn => (this.2 hn).trans (hq (by simp))⟩
+  | yielded =>
+    simp only [GoodCtl] at hc
+    have hext := ext_through_frame hA (by simp [hcp, tryPanicMarker]) (by simp) hc.1
+    exact ⟨by simp only [GoodCtl]; exact ⟨⟨hext.cs, hext.is, hext.rs, hext.ts⟩, hc.2.trans hA.cs⟩, fun _ => hq (by simp)⟩
 
 /-- **the try statement obeys the discipline** and handleThrow always lands on the statement's own frame
 (`stuck` is unreachable) -/
@@ -224,6 +243,11 @@ theorem tryStmt_good {runF : RunF} (HG : HypG runF) (HA : HypA runF) (hc hf : Bo
   | fatal =>
     simp only [GoodCtl] at hctl
     exact ⟨by simpa [GoodCtl] using ext_through_frame hA0 hjs (by simp) hctl, by simp [Quiet]⟩
+  | yielded =>
+    simp only [GoodCtl] at hctl
+    have hext := ext_through_frame hA0 hjs (by simp) hctl.1
+    exact ⟨by simp only [GoodCtl]; exact ⟨⟨hext.cs, hext.is, hext.rs, hext.ts⟩, hctl.2.trans p5⟩,
+      fun _ => (hq (by simp)).trans p8⟩
   | thrown =>
     simp only [GoodCtl] at hctl
     have hq1 : s1.interrupted = s.interrupted := (hq (by simp)).trans p8
@@ -276,5 +300,26 @@ theorem tryStmt_good {runF : RunF} (HG : HypG runF) (HA : HypA runF) (hc hf : Bo
         obtain ⟨b1, _, _⟩ := a10 rfl
         exact absurd b1 hjs
       | empty => exact absurd rfl a8
+
+/-- resuming inside a catch handler / inside a finally block -/
+theorem tryResumeH_good {runF : RunF} (HG : HypG runF) (HA : HypA runF) (hf : Bool) (cur fin : Beh) (s : Vm)
+    (hI : Inv s) : Good s (tryResumeH runF hf cur fin s) := by
+  unfold tryResumeH
+  obtain ⟨tf, htf, hF, hcat, hfinp, _⟩ := pushTryFrame_frameOf (-1) (if hf then 20 else -1) s
+  obtain ⟨p1, p2, p3, p4, p5, p6, p7, p8⟩ := pushTryFrame_same (-1) (if hf then 20 else -1) s
+  have hA0 : AtFrame s (pushTryFrame (-1) (if hf then 20 else -1) s) tf := ⟨p1, p2, p3, p4, p5, p6, p7, htf⟩
+  have hg := HG cur _ (hA0.inv hI)
+  have := afterHandler_good HG HA hf fin s _ tf _ hI hA0 hF hcat hfinp hg
+  exact ⟨this.1, fun hn => (this.2 hn).trans p8⟩
+
+theorem tryResumeF_good {runF : RunF} (HG : HypG runF) (pending : Bool) (cur : Beh) (s : Vm) (hI : Inv s) :
+    Good s (tryResumeF runF pending cur s) := by
+  unfold tryResumeF
+  obtain ⟨tf, htf, hF, hcat, hfinp, _⟩ := pushTryFrame_frameOf (-1) (-1) s
+  simp only [htf]
+  have hA : AtFrame s ({ s with tryStack := { tf with exception := if pending then some 1 else none } :: s.tryStack } : Vm)
+      { tf with exception := if pending then some 1 else none } := ⟨rfl, rfl, rfl, rfl, rfl, rfl, rfl, rfl⟩
+  have := finPhase_good HG cur s _ _ hI hA (by simp [hcat, tryPanicMarker]) (by simp [isConsumed, hcat, hfinp])
+  exact ⟨this.1, fun hn => this.2 hn⟩
 
 end GojaModel.C03
